@@ -290,6 +290,8 @@ reg("C17", harness="c17_window", level="exploration", deadline=(300, 1800), extr
          "distinct verified streams / dictionary cases.")
 
 
+ENGINES.append({"name": "pcall", "path": "engine/pcall.S", "serves_properties": ["C03", "C04", "C05", "C08", "C13", "C20"],
+                "kind_free_text": "call trampoline that owns the register state at kernel entry: every caller-saved vector and opmask register, rax/r10/r11 and the arithmetic flags are set to a poison pattern (all-ones / a5) before each enumerated kernel call, so a result that depends on what an earlier call left in a register the ABI does not preserve fails deterministically"})
 ENGINES.append({"name": "sched", "path": "engine/vsched.h", "serves_properties": ["C15"],
                 "kind_free_text": "hook-free serialising scheduler: library-owned writable memory is PROT_NONE, every access faults, W-granule accesses are scheduling points, the instruction is single-stepped (TF); stateless DFS over schedules with iterative preemption bounding"})
 
